@@ -19,12 +19,18 @@ walks the map (both explicit permutation arguments), every cancellation pattern:
     (`CheckCacheKey ∘ InvariantCacheKey`), its hypothesis discharged by
     `C24.subproblem_key_injective_upto_digest` (up to a collision of the 64-bit digest, an explicit
     hypothesis);
+  * `item_error_isolated` — the task handed to the pool returns nil on every path (tie
+    `tie_worker_returns_nil`; the pool is built WithCancelOnError), so an item whose check fails in any way
+    changes no other id's outcome; `worker_error_cancels_siblings` shows the tie is necessary;
+  * `tie_request_datastore_per_execute` — the checker the items share builds its request-scoped datastore
+    view per Execute call (nothing is memoised on the command);
   * validation: `execute_error_iff` — the request fails iff it has more than the maximum, no checks,
     an empty or a repeated correlation id (first offender in list order).
 -/
 import OpenFGAVerif.Model.Batch
 import OpenFGAVerif.Props.C24
 import OpenFGAVerif.Gen.Batch
+import OpenFGAVerif.Gen.ReqScope
 
 namespace OpenFGAVerif.C07
 open OpenFGAVerif.Model.Batch
@@ -669,6 +675,24 @@ theorem tie_run_and_fanout : Gen.Batch.checkParams =
     Gen.Batch.fanOutLoop = ["range:cacheKey, checkItem := range cacheKeyMap", "res, _ := resultMap.Load(cacheKey)",
       "outcome := res.(*BatchCheckOutcome)", "range:_, id := range checkItem.CorrelationIDs", "results[id] = outcome"] ∧
     Gen.Batch.duplicateCount = "len(params.Checks) - len(cacheKeyMap)" := by decide
+
+set_option maxRecDepth 200000 in
+/-- **the checker shared by the items keeps nothing from one item to the next** (`Gen.ReqScope`,
+extract/facts_reqscope.go; hypothesis `hcheck` of `batch_spec`: the check is a function of the ITEM's
+inputs).  Server.BatchCheck hands one `CheckQuery` to all items: its `Execute` builds the request-scoped
+datastore view (which carries the contextual tuples) by a top-level statement of Execute from the params of
+THAT call, reads through that local variable, assigns no field of the command, calls no `.Do(`, and the
+struct has no field that could memoise a wrapper; `CheckQueryV2.resolve` builds its `check.Request` per call. -/
+theorem tie_request_datastore_per_execute :
+    Gen.ReqScope.v1WrapperSites = ["CheckQuery.Execute:funclit-depth=0"] ∧
+    Gen.ReqScope.v1WrapperStmt = "datastoreWithTupleCache := storagewrappers.NewRequestStorageWrapperWithCache" ∧
+    Gen.ReqScope.v1WrapperArgs = ["c.datastore", "params.ContextualTuples.GetTupleKeys()"] ∧
+    Gen.ReqScope.v1ContextReader = ["ctx", "datastoreWithTupleCache"] ∧
+    Gen.ReqScope.v1ReceiverWrites = [] ∧ Gen.ReqScope.v1DoCalls = [] ∧ Gen.ReqScope.v1MemoFields = [] ∧
+    Gen.ReqScope.v2RequestStmt = "r, err := check.NewRequest" ∧
+    Gen.ReqScope.v2RequestContextualTuples = "params.ContextualTuples.GetTupleKeys()" ∧
+    Gen.ReqScope.v2ReceiverWrites = [] ∧ Gen.ReqScope.v2ResolveCalls = ["resolver.ResolveCheck(ctx, r)"] := by
+  decide
 
 theorem tie_defaults : Gen.Batch.defaultMaxChecks = 50 ∧ Gen.Batch.defaultMaxConcurrent = 50 := by decide
 
